@@ -369,7 +369,7 @@ pub fn check05(rep: &Report) {
     rep.enumerate("field-sweep", true, sweep05, run05);
     let ml = if rep.tier == Tier::Thorough { 3 } else { 2 };
     rep.enumerate("short-strings", true, move |p, n| short_strings05(ml, p, n), run05);
-    rep.random("faults", rep.tier.n(150_000, 8_000_000), 200, decode05, run05);
+    rep.random("faults", rep.tier.n(400_000, 12_000_000), 200, decode05, run05);
     rep.require("faults", "fault:connect-response", 2000);
     rep.require("faults", "fault:license", 2000);
     rep.require("faults", "negotiation", 2000);
